@@ -91,6 +91,7 @@ func (h ErrorHandler) errorPage(w http.ResponseWriter, r *http.Request, code int
 			contentType = "text/html; charset=utf-8"
 		}
 		// Copy the page body into the response
+		w.Header().Del("Content-Length") // possibly announced by the handler that failed
 		w.Header().Set("Content-Type", contentType)
 		w.WriteHeader(code)
 		_, err = io.Copy(w, errorPage)
